@@ -7,10 +7,10 @@
  "kind": "bounded",
  "bound": "initialiser lists of <= 3 nodes before the insertion; all byte ranges below 2^32 and all bit-field before/after pairs symbolic; every scan start position p->last",
  "cflags": ["-DN=3"],
- "unwindset": ["initadd.0:5", "initadd.1:5", "build.0:4", "walk.0:6", "listinv.0:6", "listinv.1:6", "pos_of.0:6", "harness.0:4", "harness.1:4", "harness.2:4", "observe_post.0:4", "idx_of.0:4"],
+ "unwindset": ["initadd.0:5", "initadd.1:5", "build.0:4", "walk.0:6", "listinv.0:6", "listinv.1:6", "pos_of.0:6", "harness.0:4", "harness.1:4", "harness.2:4", "harness.3:4", "observe_post.0:4", "idx_of.0:4"],
  "timeout": 300,
  "tiers": {"thorough": {"cflags": ["-DN=5"], "timeout": 1500,
-           "unwindset": ["initadd.0:7", "initadd.1:7", "build.0:6", "walk.0:8", "listinv.0:8", "listinv.1:8", "pos_of.0:8", "harness.0:6", "harness.1:6", "harness.2:6", "observe_post.0:6", "idx_of.0:6"],
+           "unwindset": ["initadd.0:7", "initadd.1:7", "build.0:6", "walk.0:8", "listinv.0:8", "listinv.1:8", "pos_of.0:8", "harness.0:6", "harness.1:6", "harness.2:6", "harness.3:6", "observe_post.0:6", "idx_of.0:6"],
            "bound": "initialiser lists of <= 5 nodes before the insertion; all byte ranges below 2^32 and all bit-field before/after pairs symbolic; every scan start position p->last"}},
  "expects": ["assertion_verif"],
  "assumes": ["the statement is for lists of ANY length; it is checked up to the stated bound only",
@@ -43,6 +43,8 @@ unsigned g_n;                        /* length of the old list */
 unsigned g_k;                        /* scan start: p->last == (g_k == 0 ? &p->init : &nd[g_k-1].next) */
 struct init g_nd0[N], g_nw0;         /* pre-state copies (frame) */
 bool g_pre_inv;                      /* INV(old list) */
+bool g_nosameend;                    /* no old initialiser strictly covers nw and ends at the same bit */
+bool g_laminar;                      /* no old initialiser overlaps nw only in part */
 bool g_pre_prefix;                   /* nodes before the scan start are before nw or strictly cover it */
 
 /* same pointer?  (object number + offset instead of ==: keeps CBMC's value-set based simplifier quiet; identical natively) */
@@ -169,13 +171,30 @@ build(unsigned n)
 #define C_ORDER(i)    IMP((i) + 1 < g_n && g_pos[i] >= 0 && g_pos[(i) + 1 < N ? (i) + 1 : 0] >= 0, g_pos[i] < g_pos[(i) + 1 < N ? (i) + 1 : 0])
 #define C_FRAME(i)    UNCHANGED(nd[i], g_nd0[i])
 
+/*
+ * INIT.initadd: sub-objects form a laminar family (every old initialiser is disjoint from, covered by, or strictly covers
+ * the new one) -- always the case without unions, since the members of a struct / elements of an array nest.
+ * INIT.initadd.partial (initadd_partial.c, -DPARTIAL): no such assumption; members of a union may overlap in part.
+ */
+#if defined(PARTIAL)
+#define PRE_CASE(X)
+#elif defined(NOSAMEEND)
+/* INIT.initadd.nosameend (initadd_nosameend.c): additionally no old initialiser strictly covers the new one AND ends at
+   the same bit -- the case in which INIT.initadd fails on the pinned tree (`struct S l = { 1, .t = x, .t.l = 41 };`);
+   this carve-out exists only so that the rest of the contract is a passing unit the mutants can be run against */
+#define PRE_CASE(X) X(g_laminar) X(g_nosameend)
+#else
+#define PRE_CASE(X) X(g_laminar)
+#endif
+
 #define PRE(X) \
 	X(p == &P && new == &nw) \
 	X(g_n <= N && g_k <= g_n) \
 	X(p->last == (g_k == 0 ? &p->init : &nd[g_k < N + 1 && g_k > 0 ? g_k - 1 : 0].next)) \
 	X(VALIDNODE(new)) \
 	X(g_pre_inv) \
-	X(g_pre_prefix)
+	X(g_pre_prefix) \
+	PRE_CASE(X)
 
 #define POST(X) \
 	/* the list is still a NULL-terminated list with the invariant (sorted by bit start; overlap only as strict cover) */ \
@@ -201,6 +220,18 @@ build(unsigned n)
 	X(UNCHANGED(nw, g_nw0)) \
 	CANARY(X, !(g_n == 2 && g_k == 0 && BS(&g_nw0) == 8 && BE(&g_nw0) == 16))
 
+/* every harness input (textually here so that the runner finds the names for counterexample replay) */
+#ifndef HARNESS_INPUTS
+#define HARNESS_INPUTS \
+	IN(unsigned, in_n); IN(unsigned, in_k); \
+	IN(u64, in_s0); IN(u64, in_e0); IN(short, in_b0); IN(short, in_a0); \
+	IN(u64, in_s1); IN(u64, in_e1); IN(short, in_b1); IN(short, in_a1); \
+	IN(u64, in_s2); IN(u64, in_e2); IN(short, in_b2); IN(short, in_a2); \
+	IN(u64, in_s3); IN(u64, in_e3); IN(short, in_b3); IN(short, in_a3); \
+	IN(u64, in_s4); IN(u64, in_e4); IN(short, in_b4); IN(short, in_a4); \
+	IN(u64, in_sn); IN(u64, in_en); IN(short, in_bn); IN(short, in_an);
+#endif
+
 static void
 observe_post(void)
 {
@@ -222,13 +253,7 @@ harness(void)
 	struct initparser *p = &P;
 	struct init *new = &nw;
 	unsigned i;
-	IN(unsigned, in_n); IN(unsigned, in_k);
-	IN(u64, in_s0); IN(u64, in_e0); IN(short, in_b0); IN(short, in_a0);
-	IN(u64, in_s1); IN(u64, in_e1); IN(short, in_b1); IN(short, in_a1);
-	IN(u64, in_s2); IN(u64, in_e2); IN(short, in_b2); IN(short, in_a2);
-	IN(u64, in_s3); IN(u64, in_e3); IN(short, in_b3); IN(short, in_a3);
-	IN(u64, in_s4); IN(u64, in_e4); IN(short, in_b4); IN(short, in_a4);
-	IN(u64, in_sn); IN(u64, in_en); IN(short, in_bn); IN(short, in_an);
+	HARNESS_INPUTS
 	u64 s[5] = {in_s0, in_s1, in_s2, in_s3, in_s4}, e[5] = {in_e0, in_e1, in_e2, in_e3, in_e4};
 	short b[5] = {in_b0, in_b1, in_b2, in_b3, in_b4}, a[5] = {in_a0, in_a1, in_a2, in_a3, in_a4};
 
@@ -256,6 +281,13 @@ harness(void)
 	for (i = 0; i < N; ++i) {
 		if (i < in_k && !(DISJ(&nd[i], &nw) || SCOVERS(&nd[i], &nw)))
 			g_pre_prefix = false;
+	}
+	g_laminar = g_nosameend = true;
+	for (i = 0; i < N; ++i) {
+		if (O_PARTIAL(i))
+			g_laminar = false;
+		if (O_SCOVERS(i) && BE(&nd[i]) == BE(&nw))
+			g_nosameend = false;
 	}
 	HCALL(PRE, POST, (initadd(p, new), observe_post()));
 }
